@@ -191,6 +191,53 @@ def reroot(tree, rng):
     return (build(u, v), build(v, u))
 
 
+def shared_pattern_findings(rng, tier):
+    """Several likelihoods in ONE document sharing the site pattern (and everything else) by id, each with its
+    own treatment of the tips (ambiguity codes as sets / as missing / tip states): every one must return what it
+    returns when it is alone in its document, whatever the order in which they are built."""
+    impl.load()
+    from torchtree.evolution.tree_likelihood import TreeLikelihoodModel
+    found, nrun = [], 0
+    for _ in range(4 if tier == "quick" else 16):
+        can = gen_canonical(rng, tier)
+        n = can["n"]
+        ident = list(range(n))
+        # make sure partial ambiguity codes are present
+        seqs = [sq[:1] + rng.choice("RYMKSWBDHVN") + sq[2:] if len(sq) > 1 else rng.choice("RYMK") for sq in can["seqs"]]
+        modes = ["partials_amb", "partials_noamb", "states"]
+        rng.shuffle(modes)
+        alone = {}
+        for m in modes:
+            try:
+                alone[m] = float(c01.build(realise(can, can["tree"], ident, ident, seqs, m))().detach())
+            except Exception as e:
+                alone[m] = e
+        dic = {}
+        together = {}
+        for k, m in enumerate(modes):
+            d = c01.spec(realise(can, can["tree"], ident, ident, seqs, m))
+            d["id"] = f"like{k}"
+            if k > 0:
+                for key in ("tree_model", "site_model", "substitution_model", "site_pattern", "branch_model"):
+                    if key in d:
+                        d[key] = d[key]["id"]
+            try:
+                together[m] = float(TreeLikelihoodModel.from_json(d, dic)().detach())
+            except Exception as e:
+                together[m] = e
+        nrun += 1
+        for m in modes:
+            a, b = alone[m], together[m]
+            bad = isinstance(a, Exception) != isinstance(b, Exception) or (
+                not isinstance(a, Exception) and not (math.isfinite(a) and math.isfinite(b) and abs(a - b) <= 1e-9 * max(1.0, abs(a))))
+            if bad:
+                found.append((f"C02:shared-site-pattern:{m}",
+                              f"three likelihoods sharing one site pattern, built in the order {modes}: the one with "
+                              f"tips as {m} returns {b!r}, alone in its document it returns {a!r}",
+                              dict(kind="shared-site-pattern", order=modes, seqs=seqs, can={k: v for k, v in can.items() if k != "edge"})))
+    return found, nrun
+
+
 def perm_indices(rng, L):
     """an `indices` string selecting every column exactly once, in another order: pieces a:b and single
     positions, written with positive or negative numbers (the last column as -1 in particular)"""
@@ -329,6 +376,9 @@ def run(tier, seed, replay=None):
     C.handle_proof(rep, PID, search)
     for f in search():
         rep.violation(*f)
+    shared_fs, n_shared = ([], 0) if replay else shared_pattern_findings(rng, tier)
+    for f in shared_fs[:3]:
+        rep.violation(*f)
 
     # each specification against the model (the theorems give model(A) = model(B))
     t0 = time.time()
@@ -370,6 +420,7 @@ def run(tier, seed, replay=None):
                 "pairs of equivalent JSON specifications: permuted taxa list, permuted sequence list, swapped children, "
                 "permuted columns, tip states vs tip partials (ambiguous = missing), root moved to a random branch with "
                 "the taxa permuted as well (unrooted, reversible models), the same unrooted tree with its lengths written in "
-                "the newick string (keep_branch_lengths; root edge split anywhere, trifurcating root, re-rooted); non-trivial = >= 3 taxa; distinct = distinct pair")
-    rep.extra = dict(input_distribution=dist, traces_validated_against_impl=len(keys), pairs=len(results))
+                "the newick string (keep_branch_lengths; root edge split anywhere, trifurcating root, re-rooted), columns selected in another order / written out through `indices`, three likelihoods sharing one site pattern in one document vs each alone; non-trivial = >= 3 taxa; distinct = distinct pair")
+    rep.extra = dict(input_distribution=dist, traces_validated_against_impl=len(keys), pairs=len(results),
+                     documents_with_three_likelihoods_sharing_one_site_pattern=n_shared)
     return rep.finish()
